@@ -116,6 +116,10 @@ inductive Stmt
   | foreach (x : Nat) (decl : Bool) (vals : List SVal) (body : List Stmt)
       -- WHILE [VAR] @x IN cur DO … END WHILE over a cursor that is open in front of its first row and whose
       -- remaining rows (one column) are `vals`; the cursor is not used again
+  | declT (x : Nat)
+      -- DECLARE tx VIEW (c1): a temporary table is a variable holding its rows (here: how many); unlike a
+      -- variable it cannot be shadowed — DeclareView refuses a name that is visible in ANY block.  INSERT / DELETE
+      -- on it from any depth are assignments to the innermost binding (ReplaceTemporaryTable walks outward)
   | inline (ss : List Stmt)
       -- SOURCE file / EXECUTE 'text' / EXECUTE prepared_statement whose statements are `ss`:
       -- Processor.execute on the SAME processor, i.e. in the current block, the flow handed on
@@ -134,7 +138,7 @@ structure FDecl where
   deriving Repr, Inhabited
 
 inductive Err
-  | undeclaredVar | redeclaredVar | undeclaredFn | redeclaredFn | argCount | dupParam | fuel
+  | undeclaredVar | redeclaredVar | undeclaredFn | redeclaredFn | argCount | dupParam | redeclaredTable | fuel
   deriving DecidableEq, Repr, Inhabited
 
 /-! ## blocks (BlockScope: Variables and Functions maps) -/
@@ -389,6 +393,13 @@ def stmtI : Nat → Stmt → Option SVal → St → PRes
     -- childProc := proc.NewChildProcessor(); defer childProc.Close()
     let r := foreachI fuel x decl vals body rv none st.push
     { r with st := r.st.pop }
+  | _ + 1, .declT x, rv, st =>                                   -- DeclareView: scope.TemporaryTableExists over all blocks
+    match getVar x st.blocks with
+    | some _ => .fail .redeclaredTable rv st
+    | none =>
+      match declareVar x (.int 0) st.blocks with
+      | none => .fail .redeclaredTable rv st
+      | some bs => .ok rv { st with blocks := bs }
   | fuel + 1, .inline ss, rv, st => executeI fuel ss rv st       -- flow, err = proc.execute(ctx, externalStatements)
   | _ + 1, .brk, rv, st => ⟨.brk, none, rv, st⟩
   | _ + 1, .cont, rv, st => ⟨.cont, none, rv, st⟩
@@ -605,6 +616,13 @@ def stmtS : Nat → Stmt → St → Outcome × St
   | fuel + 1, .ifs branches els, st => ifS fuel branches els st
   | fuel + 1, .while c body, st => whileS fuel c body st
   | fuel + 1, .foreach x decl vals body, st => foreachS fuel x decl vals body st
+  | _ + 1, .declT x, st =>
+    match getVar x st.blocks with
+    | some _ => (.err .redeclaredTable, st)
+    | none =>
+      match declareVar x (.int 0) st.blocks with
+      | none => (.err .redeclaredTable, st)
+      | some bs => (.normal, { st with blocks := bs })
   | fuel + 1, .inline ss, st => blockS fuel ss st
   | _ + 1, .brk, st => (.brk, st)
   | _ + 1, .cont, st => (.cont, st)
